@@ -43,16 +43,17 @@ def _cache(name, build):
     return d
 
 
-def symmem_cfg(maxst, maxld, offs, bases, vks, loadlast, extra=''):
+def symmem_cfg(maxst, maxld, offs, bases, vks, loadlast, extra='', ws=(8, 16, 32)):
     def sset(xs):
         return '{' + ','.join('"%s"' % x for x in xs) + '}'
-    return ('CONSTANTS\n MaxStores = %d\n MaxLoads = %d\n Offs = {%s}\n Ws = {8,16,32}\n Bases = %s\n ValKinds = %s\n LoadLast = %s\n%s'
-            % (maxst, maxld, ','.join(str(o) for o in offs), sset(bases), sset(vks), 'TRUE' if loadlast else 'FALSE', extra))
+    return ('CONSTANTS\n MaxStores = %d\n MaxLoads = %d\n Offs = {%s}\n Ws = {%s}\n Bases = %s\n ValKinds = %s\n LoadLast = %s\n%s'
+            % (maxst, maxld, ','.join(str(o) for o in offs), ','.join(str(w) for w in ws), sset(bases), sset(vks),
+               'TRUE' if loadlast else 'FALSE', extra))
 
 
-def gen_hists(maxst, offs, base, chk):
+def gen_hists(maxst, offs, base, chk, ws=(8, 16, 32), vks=('c', 's')):
     """exhaustive: every history of <= maxst stores followed by one load (reachable states of SymMem.tla)"""
-    cfg = symmem_cfg(maxst, 1, offs, [base], ['c', 's'], True) + 'INIT Init\nNEXT Next\nINVARIANTS TypeOK ReplayOK\nCHECK_DEADLOCK FALSE\n'
+    cfg = symmem_cfg(maxst, 1, offs, [base], list(vks), True, ws=ws) + 'INIT Init\nNEXT Next\nINVARIANTS TypeOK ReplayOK\nCHECK_DEADLOCK FALSE\n'
 
     def build():
         dump = os.path.join(core.scratch(), 'symmem.dump')
@@ -86,9 +87,9 @@ def _last_hist(path):
     return p.value()
 
 
-def sim_hists(n, seed, bases, maxst, maxld, chk):
+def sim_hists(n, seed, bases, maxst, maxld, chk, ws=(8, 16, 32), offs=range(8)):
     """-simulate beyond the exhaustive bound: up to maxst stores with interleaved loads"""
-    cfg = symmem_cfg(maxst, maxld, range(8), bases, ['c', 's'], False) + 'INIT Init\nNEXT Next\nCHECK_DEADLOCK FALSE\n'
+    cfg = symmem_cfg(maxst, maxld, offs, bases, ['c', 's'], False, ws=ws) + 'INIT Init\nNEXT Next\nCHECK_DEADLOCK FALSE\n'
 
     def build():
         d = tempfile.mkdtemp(prefix='simh_', dir=core.scratch())
@@ -264,7 +265,7 @@ def _hist_inner(arg):
     from miasmx.expression import expression as X
     from miasmx.expression.expression_eval_abstract import eval_abs
     from miasmx.tools import modint as M
-    U = {8: M.uint8, 16: M.uint16, 32: M.uint32}
+    U = {8: M.uint8, 16: M.uint16, 32: M.uint32, 64: M.uint64, 128: M.uint128}
     m = eval_abs({}, log=_quiet_log())
     obs = []
     for a in acts:
@@ -524,6 +525,9 @@ def report_hists(chk, recs, verdicts):
         r = byid[v['id']]
         for f in v['v']:
             key = {'kind': 'history', 'clause': f['clause'], 'path': f.get('path', '')}
+            wmax = max(a['w'] for a in r['acts'])
+            if wmax > 32:                   # histories with x87/MMX/SSE-sized accesses: the widest access names the class
+                key['wide'] = wmax
             detail = {'history': r['acts'], 'history_text': show_hist(r['acts']), 'verdict': f}
             if f['clause'] in ('C07.noexc', 'C07.terminates'):
                 key.update(r['exc'])
@@ -693,6 +697,17 @@ def run(tier, chk):
         groups.append(('a:<=2 stores+1 load, base=%s, offsets=%s (exhaustive)' % (base, offs), gen_hists(2, offs, base, chk)))
     for bases, n in ((['c'], 150 if quick else 4000), (['s'], 150 if quick else 4000), (['c', 's'], 100 if quick else 3000)):
         groups.append(("a':3..8 stores, interleaved loads, bases=%s (-simulate)" % ','.join(bases), sim_hists(n, chk.seed, bases, 8, 4, chk)))
+    # (a64/a128) the property says "of any width": the 64-bit cells of x87/MMX operands and the 128-bit cells of SSE operands
+    # next to the integer widths (the model and the judge are width-generic; only the generator constants differ)
+    woffs64 = [0, 1, 4, 7, 8] if quick else list(range(10))
+    woffs128 = [0, 4, 8, 12, 15] if quick else [0, 1, 4, 7, 8, 9, 12, 15, 16]
+    for base in ('c', 's'):
+        groups.append(('a64:<=2 stores+1 load, widths 8/16/32/64, base=%s, offsets=%s (exhaustive)' % (base, woffs64),
+                       gen_hists(2, woffs64, base, chk, ws=(8, 16, 32, 64), vks=('c',) if quick else ('c', 's'))))
+        groups.append(('a128:<=2 stores+1 load, widths 32/64/128, base=%s, offsets=%s (exhaustive)' % (base, woffs128),
+                       gen_hists(2, woffs128, base, chk, ws=(32, 64, 128), vks=('c',) if quick else ('c', 's'))))
+    groups.append(("a'w:3..6 stores, interleaved loads, widths 8..128, offsets 0..16 (-simulate)",
+                   sim_hists(150 if quick else 4000, chk.seed, ['c', 's'], 6, 3, chk, ws=(8, 16, 32, 64, 128), offs=range(17))))
     allrecs, spans = [], []
     for label, hs in groups:
         recs = hist_records(hs, rnd, nid)
@@ -710,7 +725,8 @@ def run(tier, chk):
         for r in recs[:1]:
             chk.sample({'history': show_hist(r['acts']), 'read_back': EJ.show(r['obs'][-1]) if r['st'] == 'ok' else r['st'], 'valuations': NENV})
     chk.cov['exhaustive'] = False      # the history space below is enumerated completely; the program space is sampled
-    chk.cov['exhaustively_enumerated_part'] = 'histories of <= 2 stores + 1 load, widths 8/16/32, offsets %s, constant and symbolic base, constant and symbolic values' % offs
+    chk.cov['exhaustively_enumerated_part'] = ('histories of <= 2 stores + 1 load, widths 8/16/32, offsets %s, constant and symbolic base, constant and symbolic values; '
+                                               'the same with widths 8/16/32/64 at offsets %s and widths 32/64/128 at offsets %s' % (offs, woffs64, woffs128))
     t0 = _tick(chk, 'histories (exhaustive + simulated)', t0)
     # (b) programs
     st = collections.Counter()
